@@ -45,6 +45,8 @@ STUB_PATCHES = {
     "to_algebraic": ("common/src/bitboard/square.rs", _hdr("to_algebraic"), "if true { return tables::ALGEBRAIC[(square.0.trailing_zeros() & 63) as usize]; }"),
     "square_string_to_bitboard": ("common/src/bitboard/square.rs", _hdr("square_string_to_bitboard"),
                                   "if true { let b = coordinate.as_bytes(); return Bitboard(1u64 << (((b[1] - b'1') * 8 + (b[0] - b'a')) & 63)); }"),
+    "uf_rook": ("src/move_generator/magic_table.rs", r"pub " + _hdr("get_rook_targets"), "if true { return self.uf_rook(square, blockers); }"),
+    "uf_bishop": ("src/move_generator/magic_table.rs", r"pub " + _hdr("get_bishop_targets"), "if true { return self.uf_bishop(square, blockers); }"),
     "magic_new": ("src/move_generator/magic_table.rs", r"pub " + _hdr("new"), "if true { return Self::verif_empty(); }"),
 }
 
